@@ -78,6 +78,14 @@ func gen(t *rapid.T) Case {
 			op.I = rapid.SampledFrom([]int64{0, 1, -1, 3, 4, 9, 10, int64(time.Millisecond), int64(time.Second), int64(time.Second) + 1, -int64(time.Second), math.MaxInt64, math.MinInt64}).Draw(t, "d")
 		case "mutate":
 			op.Which = rapid.IntRange(0, 3).Draw(t, "which")
+		}
+		switch op.K {
+		case "counter", "gauge", "timer", "vhist", "dhist":
+			// Which == 7: the metric is only asked for (a handle obtained up front, nothing recorded
+			// yet): it is a metric of the scope all the same - "one entry per metric"
+			if rapid.IntRange(0, 5).Draw(t, "touchOnly") == 0 {
+				op.Which = 7
+			}
 		case "snap":
 			// Which == 1: the snapshot is taken now but READ only at the end of the history, after
 			// more recording: it must still show the state at the time it was taken
@@ -297,18 +305,33 @@ func run(c Case) (pbt.Outcome, error) {
 			}
 			scopes = append(scopes, n)
 		case "counter":
+			if op.Which == 7 {
+				_ = ms.s.Counter(string(op.Name))
+				get(ms, "counter", string(op.Name))
+				continue
+			}
 			ms.s.Counter(string(op.Name)).Inc(op.I)
 			if e := get(ms, "counter", string(op.Name)); e != nil {
 				e.count += op.I
 			}
 			recordedAfterSnap = len(snaps) > 0
 		case "gauge":
+			if op.Which == 7 {
+				_ = ms.s.Gauge(string(op.Name))
+				get(ms, "gauge", string(op.Name))
+				continue
+			}
 			ms.s.Gauge(string(op.Name)).Update(op.F.V())
 			if e := get(ms, "gauge", string(op.Name)); e != nil {
 				e.gauge = uint64(op.F)
 			}
 			recordedAfterSnap = len(snaps) > 0
 		case "timer":
+			if op.Which == 7 {
+				_ = ms.s.Timer(string(op.Name))
+				get(ms, "timer", string(op.Name))
+				continue
+			}
 			ms.s.Timer(string(op.Name)).Record(time.Duration(op.I))
 			if e := get(ms, "timer", string(op.Name)); e != nil {
 				e.timers = append(e.timers, time.Duration(op.I))
@@ -316,7 +339,10 @@ func run(c Case) (pbt.Outcome, error) {
 			recordedAfterSnap = len(snaps) > 0
 		case "vhist":
 			spec := vspecs[op.Spec]
-			ms.s.Histogram(string(op.Name), tally.ValueBuckets(append([]float64(nil), spec...))).RecordValue(op.F.V())
+			h := ms.s.Histogram(string(op.Name), tally.ValueBuckets(append([]float64(nil), spec...)))
+			if op.Which != 7 {
+				h.RecordValue(op.F.V())
+			}
 			if e := get(ms, "histogram", string(op.Name)); e != nil {
 				pairs := model.ValuePairs(spec)
 				if e.vh == nil {
@@ -325,13 +351,18 @@ func run(c Case) (pbt.Outcome, error) {
 						e.vh[p.Hi] += 0
 					}
 				}
-				hi, _ := model.ValueBucketOf(pairs, op.F.V())
-				e.vh[hi]++
+				if op.Which != 7 {
+					hi, _ := model.ValueBucketOf(pairs, op.F.V())
+					e.vh[hi]++
+				}
 			}
 			recordedAfterSnap = len(snaps) > 0
 		case "dhist":
 			spec := dspecs[op.Spec]
-			ms.s.Histogram(string(op.Name), tally.DurationBuckets(append([]time.Duration(nil), spec...))).RecordDuration(time.Duration(op.I))
+			h := ms.s.Histogram(string(op.Name), tally.DurationBuckets(append([]time.Duration(nil), spec...)))
+			if op.Which != 7 {
+				h.RecordDuration(time.Duration(op.I))
+			}
 			if e := get(ms, "histogram", string(op.Name)); e != nil {
 				pairs := model.DurationPairs(spec)
 				if e.dh == nil {
@@ -340,7 +371,9 @@ func run(c Case) (pbt.Outcome, error) {
 						e.dh[p.Hi] += 0
 					}
 				}
-				e.dh[model.DurationBucketOf(pairs, time.Duration(op.I))]++
+				if op.Which != 7 {
+					e.dh[model.DurationBucketOf(pairs, time.Duration(op.I))]++
+				}
 			}
 			recordedAfterSnap = len(snaps) > 0
 		case "snap":
